@@ -11,6 +11,7 @@ import (
 	"path/filepath"
 	"strings"
 	"sync"
+	"syscall"
 	"time"
 
 	"verif/sim/instr"
@@ -142,10 +143,12 @@ func NewBuild(variants ...string) *Build {
 	if base == "" {
 		base = "/tmp"
 	}
+	removeStaleScratch(base)
 	scratch, err := os.MkdirTemp(base, "verif-scratch.")
 	if err != nil {
 		infraFail("mkdtemp: %v", err)
 	}
+	os.WriteFile(filepath.Join(scratch, "owner.pid"), []byte(fmt.Sprint(os.Getpid())), 0o644)
 	onExit(func() { os.RemoveAll(scratch) })
 	b := &Build{Scratch: scratch, Repo: filepath.Join(scratch, "repo"), Bins: map[string]string{}, Tree: treeFingerprint()}
 	if out, err := run("/", os.Environ(), "rsync", "-a", "--exclude=.git", "--exclude=/examples", "--exclude=/cmd",
@@ -250,3 +253,27 @@ func (b *Build) siteName(id uint32) string {
 	}
 	return fmt.Sprintf("site%d", id)
 }
+
+// removeStaleScratch deletes scratch directories whose owning simctl is gone
+// (a killed check cannot run its own cleanup).
+func removeStaleScratch(base string) {
+	ms, _ := filepath.Glob(filepath.Join(base, "verif-scratch.*"))
+	for _, m := range ms {
+		data, err := os.ReadFile(filepath.Join(m, "owner.pid"))
+		if err != nil {
+			if st, e := os.Stat(m); e == nil && time.Since(st.ModTime()) > 10*time.Minute {
+				os.RemoveAll(m)
+			}
+			continue
+		}
+		var pid int
+		fmt.Sscan(string(data), &pid)
+		if pid > 0 {
+			if err := syscallKill0(pid); err != nil {
+				os.RemoveAll(m)
+			}
+		}
+	}
+}
+
+func syscallKill0(pid int) error { return syscall.Kill(pid, 0) }
